@@ -3,7 +3,7 @@
 # and runs the checks of the properties it could touch: every one of them must exit 0 (no alarm on correct code).
 cd "$(dirname "$0")/.."
 tier=${1:-quick}
-declare -A ids=( [R01]="C06 C07" [R02]="C15" [R03]="C15" [R04]="C18" [R05]="C12" [R06]="C02 C19" [R07]="C20" [R08]="C14 C19" )
+declare -A ids=( [R01]="C06 C07" [R02]="C15" [R03]="C15" [R04]="C18" [R05]="C12" [R06]="C02 C19" [R07]="C20" [R08]="C14 C19" [R09]="C18" )
 bad=0
 for f in refactorings/R*.diff; do
   r=$(basename $f | cut -c1-3)
